@@ -322,3 +322,143 @@ func seqByRefPos(c []CigOp, pos int) string {
 	}
 	return string(b)
 }
+
+// ---------- pairwise model (C02) ----------
+
+// pairRows builds the reference row and query row of the pairwise alignment of one query: columns
+// are the reference positions interleaved with the insertion columns of its records; the reference
+// row has '-' exactly at insertion columns; the query row has the aligned/inserted bases, '-' at
+// deleted positions and 'N' at positions no record covers. baseCol[i] is the column of reference
+// base i+1. skipIns drops the insertion columns.
+func pairRows(g samGroup, ref string, skipIns bool) (refRow, qRow string, baseCol []int) {
+	L := len(ref)
+	var rows [][]byte
+	ins := map[int]string{}
+	for _, r := range g.Recs {
+		o, in := project(r, L)
+		rows = append(rows, o)
+		for p, s := range in {
+			ins[p] += s
+		}
+	}
+	cols := mergeColumns(rows, L)
+	var rb, qb []byte
+	for p := 0; p <= L; p++ {
+		if s := ins[p]; s != "" && !skipIns {
+			for i := 0; i < len(s); i++ {
+				rb = append(rb, '-')
+				qb = append(qb, s[i])
+			}
+		}
+		if p < L {
+			baseCol = append(baseCol, len(rb))
+			rb = append(rb, ref[p])
+			c := cols[p]
+			if c == 0 {
+				c = 'N'
+			}
+			qb = append(qb, c)
+		}
+	}
+	return string(rb), string(qb), baseCol
+}
+
+// pairWindow cuts both rows from the column of reference base s to that of base e (0 = unset).
+func pairWindow(refRow, qRow string, baseCol []int, s, e int) (string, string) {
+	if s == 0 && e == 0 {
+		return refRow, qRow
+	}
+	if s == 0 {
+		s = 1
+	}
+	if e == 0 {
+		e = len(baseCol)
+	}
+	a, b := baseCol[s-1], baseCol[e-1]+1
+	return refRow[a:b], qRow[a:b]
+}
+
+func dropRefGapColumns(refRow, qRow string) string {
+	var b []byte
+	for i := 0; i < len(refRow); i++ {
+		if refRow[i] != '-' {
+			b = append(b, qRow[i])
+		}
+	}
+	return string(b)
+}
+
+// alnCol is one column of a master alignment used to generate multi-record queries.
+type alnCol byte // 'M' match, 'I' insertion, 'D' deletion
+
+// opsOf turns a run of columns into CIGAR operators.
+func opsOf(cols []alnCol) []CigOp {
+	var c []CigOp
+	for _, k := range cols {
+		if len(c) > 0 && c[len(c)-1].Op == byte(k) {
+			c[len(c)-1].Len++
+		} else {
+			c = append(c, CigOp{byte(k), 1})
+		}
+	}
+	return c
+}
+
+func colsOf(c []CigOp) []alnCol {
+	var out []alnCol
+	for _, o := range c {
+		for i := 0; i < o.Len; i++ {
+			out = append(out, alnCol(o.Op))
+		}
+	}
+	return out
+}
+
+// cutRecord makes the SAM record for columns [a,b) of a master alignment that starts at reference
+// position pos (1-based) with query sequence qseq; the rest of the query is hard- or soft-clipped.
+func cutRecord(name string, flag int, master []alnCol, pos int, qseq string, a, b int, soft bool) (SamRec, bool) {
+	qBefore, rBefore, qIn := 0, 0, 0
+	for i, k := range master {
+		cq := k == 'M' || k == 'I'
+		cr := k == 'M' || k == 'D'
+		switch {
+		case i < a:
+			if cq {
+				qBefore++
+			}
+			if cr {
+				rBefore++
+			}
+		case i < b:
+			if cq {
+				qIn++
+			}
+		}
+	}
+	qAfter := len(qseq) - qBefore - qIn
+	part := opsOf(master[a:b])
+	hasM := false
+	for _, o := range part {
+		if o.Op == 'M' {
+			hasM = true
+		}
+	}
+	if !hasM {
+		return SamRec{}, false
+	}
+	clip := byte('H')
+	seq := qseq[qBefore : qBefore+qIn]
+	if soft {
+		clip = 'S'
+		seq = qseq
+	}
+	var cig []CigOp
+	if qBefore > 0 {
+		cig = append(cig, CigOp{clip, qBefore})
+	}
+	cig = append(cig, part...)
+	if qAfter > 0 {
+		cig = append(cig, CigOp{clip, qAfter})
+	}
+	return SamRec{Name: name, Flag: flag, Pos: pos + rBefore, Cigar: cig, Seq: seq}, true
+}
